@@ -2,6 +2,7 @@ mod clock;
 mod e2e;
 mod forge;
 mod framework;
+mod mmdb;
 mod prng;
 mod oracles;
 mod props;
@@ -10,6 +11,7 @@ mod scen;
 mod sim;
 mod synth;
 mod truth;
+mod tui;
 mod wire;
 mod world;
 
@@ -66,6 +68,9 @@ fn main() {
         "C09" => props::c09::run(tier, seed, only),
         "C10" => props::c10::run(tier, seed, only),
         "C11" => props::c11::run(tier, seed, only.and_then(|s| s.parse().ok())),
+        "C16" => props::c16::run(tier, seed, only),
+        "C17" => props::c17::run(tier, seed, only.and_then(|s| s.parse().ok()), props::c17::Which::Crash),
+        "C18" => props::c17::run(tier, seed, only.and_then(|s| s.parse().ok()), props::c17::Which::Privacy),
         "C19" => props::c19::run(tier, seed, only.and_then(|s| s.parse().ok())),
         "C07" => props::c07::run(tier, seed, only),
         "C04" => props::c04::run(tier, seed, only),
